@@ -61,11 +61,14 @@ SpellNum(dec, sty) ==
 (***************************************************************************)
 (* Text: strings and URIs.  esc style 1: shortest legal form; 2: every       *)
 (* non-ASCII BMP character as \uxxxx and $ escaped; 3: \uXXXX with upper-case *)
-(* hex digits, also for the C0 characters that have short escapes.           *)
+(* hex digits, also for the C0 characters that have short escapes; 4: the    *)
+(* quote, the backslash, $ and the C0 characters as \uxxxx.                   *)
 (***************************************************************************)
 ShortEsc(c) == CASE c = 8 -> 98 [] c = 12 -> 102 [] c = 10 -> 110 [] c = 13 -> 114 [] c = 9 -> 116 [] OTHER -> 0
+\* esc style 4: every character that cannot stand for itself is \uxxxx -- the quote and the backslash too
 StrChar(c, sty) ==
-    IF c = DQ \/ c = BSL THEN <<BSL, c>>
+    IF sty.esc = 4 /\ (c \in {DQ, BSL, DOLLAR} \/ c < 32) THEN <<BSL, 117>> \o Hex4(c, FALSE)
+    ELSE IF c = DQ \/ c = BSL THEN <<BSL, c>>
     ELSE IF c = DOLLAR THEN (IF sty.esc = 1 THEN <<c>> ELSE <<BSL, c>>)
     ELSE IF c < 32 THEN (IF ShortEsc(c) # 0 /\ sty.esc # 3 THEN <<BSL, ShortEsc(c)>> ELSE <<BSL, 117>> \o Hex4(c, sty.esc = 3))
     ELSE IF c >= 128 /\ c < 65536 /\ sty.esc # 1 THEN <<BSL, 117>> \o Hex4(c, sty.esc = 3)
@@ -73,7 +76,8 @@ StrChar(c, sty) ==
 SpellStr(t, sty) == <<DQ>> \o FoldLeft(LAMBDA acc, c : acc \o StrChar(c, sty), <<>>, t) \o <<DQ>>
 \* the grammar gives a URI no short escapes (\n, \t ... belong to strings): a control character is \uxxxx
 UriChar(c, sty) ==
-    IF c = BT \/ c = BSL THEN <<BSL, c>>
+    IF sty.esc = 4 /\ (c \in {BT, BSL} \/ c < 32) THEN <<BSL, 117>> \o Hex4(c, FALSE)
+    ELSE IF c = BT \/ c = BSL THEN <<BSL, c>>
     ELSE IF c < 32 THEN <<BSL, 117>> \o Hex4(c, sty.esc = 3)
     ELSE IF c >= 128 /\ c < 65536 /\ sty.esc # 1 THEN <<BSL, 117>> \o Hex4(c, sty.esc = 3)
     ELSE <<c>>
@@ -180,6 +184,6 @@ DocDenotes(grids, sty) == [i \in 1..Len(grids) |-> Denotes(grids[i], sty)]
 
 DefaultStyle == [num |-> 1, esc |-> 1, frac |-> 1, dt |-> 1, coord |-> 1, sep |-> 1, nl |-> 1, mark |-> 1,
                  list |-> 1, empty |-> 1, gap |-> 1, fin |-> 1, ng |-> 1]
-StyleRanges == [num |-> 5, esc |-> 3, frac |-> 4, dt |-> 5, coord |-> 3, sep |-> 3, nl |-> 2, mark |-> 2,
+StyleRanges == [num |-> 5, esc |-> 4, frac |-> 4, dt |-> 5, coord |-> 3, sep |-> 3, nl |-> 2, mark |-> 2,
                 list |-> 4, empty |-> 2, gap |-> 3, fin |-> 2, ng |-> 2]
 =============================================================================
